@@ -184,8 +184,9 @@ func genC10(r *RNG, tier string) []Case {
 	}
 	// 24-bit: exhaustive in thorough, boundaries + sample in quick
 	if tier == "thorough" {
-		for v := 0; v < 1<<24; v++ {
-			addInt(3, uint64(v), "int24-exhaustive")
+		// the exhaustive 24-bit domain is produced chunk by chunk (chunksC10)
+		for _, b := range intBoundaries(3) {
+			addInt(3, uint64(b)&0xffffff, "int24-boundary")
 		}
 	} else {
 		for _, b := range intBoundaries(3) {
@@ -319,6 +320,29 @@ func genC10(r *RNG, tier string) []Case {
 	return cs
 }
 
+// chunksC10: thorough tier = the ordinary generator plus the full 24-bit domain in 32 chunks.
+func chunksC10(r *RNG, tier string) []func() []Case {
+	out := []func() []Case{func() []Case { return genC10(r, tier) }}
+	const step = 1 << 19
+	for lo := 0; lo < 1<<24; lo += step {
+		lo := lo
+		out = append(out, func() []Case {
+			var cs []Case
+			for v := lo; v < lo+step; v++ {
+				raw := uint64(v)
+				sv := int64(raw)
+				if raw >= 1<<23 {
+					sv = int64(raw) - 1<<24
+				}
+				cs = append(cs, cellCase(cellSpec{t: 9, v: fmt.Sprintf("i:3:%d", sv)}, "int24-exhaustive-signed", raw != 0))
+				cs = append(cs, cellCase(cellSpec{t: 9, v: fmt.Sprintf("u:3:%d", raw), u: true}, "int24-exhaustive-unsigned", raw != 0))
+			}
+			return cs
+		})
+	}
+	return out
+}
+
 // ---- C11 DECIMAL ------------------------------------------------------------------
 
 func digitString(r *RNG, n int, mode int) string {
@@ -426,7 +450,7 @@ func genC12(r *RNG, tier string) []Case {
 	// DATE / NEWDATE: the valid sub-lattice exhaustively in thorough, sampled in quick
 	step := 37
 	if tier == "thorough" {
-		step = 1
+		step = 3
 	}
 	k := 0
 	for y := 0; y <= 9999; y++ {
@@ -666,12 +690,12 @@ func init() {
 		}
 		return []Case{cellCase(cellSpec{t: t, md: md, v: f["v"], u: f["u"] == "1", ext: strings.Join(ext, " "), rest: unhx(f["rest"])}, "replay", true)}
 	}
-	register(&Property{ID: "C10", Gen: genC10, Replay: replayCell,
+	register(&Property{ID: "C10", Gen: genC10, Chunks: chunksC10, Replay: replayCell,
 		Rule: "abstract values -> Spec writer bytes (Lean) -> real CellBytes/cellLength vs Lean model vs canonical text; 8/16-bit domains exhaustive x2 signedness, 24-bit exhaustive in thorough, 32/64-bit boundaries + random, all YEAR bytes, BIT 1..64, ENUM 1-2, SET 1..8, float classes + random bits (float texts checked to parse back to the same bits, exponent-free). Non-trivial: value != 0"})
 	register(&Property{ID: "C11", Gen: genC11, Replay: replayCell,
 		Rule: "every valid (p,s), p in 1..65, s in 0..min(30,p) x {zero, all nines, single low digit, each 9-digit group first non-zero, random} x sign; non-trivial: value != 0"})
 	register(&Property{ID: "C12", Gen: genC12, Extra: extraC12, Replay: replayCell,
-		Rule: "DATE lattice (sampled quick / exhaustive thorough), old TIME both signs to 838h, old DATETIME, TIME2/DATETIME2/TIMESTAMP2 fsp 0..6 boundary+random, TIMESTAMP under several process time zones (offset and civil text obtained from the time package directly); non-trivial: not the all-zero value"})
+		Rule: "DATE lattice (every 37th point quick / every 3rd thorough, all points of the boundary years), old TIME both signs to 838h, old DATETIME, TIME2/DATETIME2/TIMESTAMP2 fsp 0..6 boundary+random, TIMESTAMP under several process time zones (offset and civil text obtained from the time package directly); non-trivial: not the all-zero value"})
 	register(&Property{ID: "C13", Gen: genC13, Replay: replayCell,
 		Rule: "declared lengths VARCHAR {0,1,2,254..257,1000,65535,random}, CHAR 0..1023, blob length bytes 1..4 x actual lengths {0,1,255,256,max,random} x arbitrary bytes; NULL/empty/absent via the row-column cases; non-trivial: non-empty payload"})
 }
